@@ -8,7 +8,7 @@ From HV Require Import Base.Prelude Base.Outcome Base.Bytes Model.RobustAlloc Mo
 From HV Require Import Model.CodecSuper Model.CodecOhdr Model.CodecLink Proofs.CodecOhdr Proofs.CodecLink.
 From HV Require Import Proofs.GroupWireHeap Proofs.GroupWireSnod Proofs.GroupWireBTree.
 From HV Require Import Model.FileImage Model.TreeImage Proofs.FileImage Proofs.TreeImageLink Proofs.TreeImageHdr.
-From HV Require Model.GroupNS.
+From HV Require Model.GroupNS Proofs.GroupNSBase.
 
 Local Open Scope N_scope.
 
@@ -38,13 +38,20 @@ Definition image (l : list item) : list N := sb0 ++ layout 48 l.
 
 Definition LIM : N := 4611686018427387904.
 
-Lemma blen_bt_block sa : sa < 18446744073709551616 -> blen (bt_block sa) = 544.
-Proof. intros H. rewrite bt_block_bytes' by exact H. rewrite !blen_app, !blen_le, blen_zeros. reflexivity. Qed.
-
-Lemma blen_item_bytes a it : item_ok it -> a < LIM -> blen (item_bytes a it) = item_size it.
+Lemma blen_bt_block sa : blen (bt_block sa) = 544.
 Proof.
-  unfold LIM. intros H Ha. destruct it as [seg s hb | d hb]; cbn [item_bytes item_size].
-  - destruct H as (Hs & _). rewrite !blen_app, blen_heap_header, Hs, snod_bytes_size, blen_bt_block by blia. blia.
+  unfold bt_block.
+  change (add_key (new_btnode 0 GROUP_K) 0 sa) with
+    (@Ok btnode {| btn_type := 0; btn_level := 0; btn_used := 1; btn_left := MaxUint64; btn_right := MaxUint64;
+           btn_keys := [0]; btn_children := [sa]; btn_cap := 33 |}).
+  cbv beta iota. change GROUP_K with (N.of_nat 16).
+  rewrite (bt_write_at_size _ [(0, sa)] 16); [reflexivity | split; reflexivity | cbn [length]; lia].
+Qed.
+
+Lemma blen_item_bytes a it : item_ok it -> blen (item_bytes a it) = item_size it.
+Proof.
+  intros H. destruct it as [seg s hb | d hb]; cbn [item_bytes item_size].
+  - destruct H as (Hs & _). rewrite !blen_app, blen_heap_header, Hs, snod_bytes_size, blen_bt_block. blia.
   - now rewrite blen_app.
 Qed.
 Lemma lsize_app l1 l2 : lsize (l1 ++ l2) = lsize l1 + lsize l2.
@@ -54,14 +61,14 @@ Proof.
   induction l1 as [|x r IH]; intros a l2; cbn [app layout lsize]; [now rewrite N.add_0_r|].
   rewrite IH, <- app_assoc. do 3 f_equal. blia.
 Qed.
-Lemma blen_layout l : forall a, Forall item_ok l -> a + lsize l < LIM -> blen (layout a l) = lsize l.
+Lemma blen_layout l : forall a, Forall item_ok l -> blen (layout a l) = lsize l.
 Proof.
-  induction l as [|x r IH]; intros a H Hb; [reflexivity|]. apply Forall_cons_iff in H as [Hx Hr]. cbn [layout lsize] in *.
-  rewrite blen_app, blen_item_bytes, IH; auto; blia.
+  induction l as [|x r IH]; intros a H; [reflexivity|]. apply Forall_cons_iff in H as [Hx Hr]. cbn [layout lsize] in *.
+  rewrite blen_app, blen_item_bytes, IH; auto.
 Qed.
 Lemma blen_sb0 : blen sb0 = 48. Proof. reflexivity. Qed.
-Lemma blen_image l : Forall item_ok l -> 48 + lsize l < LIM -> blen (image l) = 48 + lsize l.
-Proof. intros H Hb. unfold image. rewrite blen_app, blen_sb0, blen_layout; auto. Qed.
+Lemma blen_image l : Forall item_ok l -> blen (image l) = 48 + lsize l.
+Proof. intros H. unfold image. rewrite blen_app, blen_sb0, blen_layout; auto. Qed.
 
 (* a group item whose heap is at [ha] *)
 Definition GroupIn (lay : list item) (ha : N) : Prop :=
@@ -103,10 +110,10 @@ Proof.
 Qed.
 
 (* every item is placed in the image at its address, and stays there when items are appended *)
-Lemma item_placed l1 it l2 : Forall item_ok l1 -> 48 + lsize l1 < LIM ->
+Lemma item_placed l1 it l2 : Forall item_ok l1 ->
   placed (image (l1 ++ it :: l2)) (48 + lsize l1) (item_bytes (48 + lsize l1) it).
 Proof.
-  intros H Hb. unfold image. rewrite layout_app. cbn [layout].
+  intros H. unfold image. rewrite layout_app. cbn [layout].
   exists (sb0 ++ layout 48 l1), (layout (48 + lsize l1 + item_size it) l2). split; [now rewrite <- !app_assoc|].
   rewrite blen_app, blen_sb0, blen_layout; auto.
 Qed.
@@ -124,7 +131,7 @@ Lemma alloc_group_image lay : Forall item_ok lay -> 48 + lsize lay + 3000 < LIM 
   let ha := 48 + lsize lay in
   alloc_group (image lay) = (image (lay ++ [new_group_item ha]), ha, ha + 288, ha + 1576, ha + 2120).
 Proof.
-  intros H Hb ha. unfold alloc_group. rewrite blen_image by (auto; blia). fold ha.
+  intros H Hb ha. unfold alloc_group. rewrite blen_image by auto. fold ha.
   change HEAP_SIZE with 288. change SNOD_SIZE with 1288. change BT_SIZE with 544.
   replace (ha + 288 + 1288) with (ha + 1576) by blia. replace (ha + 1576 + 544) with (ha + 2120) by blia.
   f_equal. f_equal. f_equal. f_equal.
@@ -144,11 +151,11 @@ Qed.
 Definition new_dset_item (code : N) (dims : list N) (data : list N) (da : N) : item :=
   let '(class, size, cbf) := dtype_of_code code in IDset data (ohdr_block (dset_ohdr_at class size cbf dims da)).
 
-Lemma alloc_dataset_image lay code dims data : Forall item_ok lay -> 48 + lsize lay < LIM ->
+Lemma alloc_dataset_image lay code dims data : Forall item_ok lay ->
   let da := 48 + lsize lay in
   alloc_dataset (image lay) code dims data = (image (lay ++ [new_dset_item code dims data da]), da + blen data).
 Proof.
-  intros H Hb da. unfold alloc_dataset, new_dset_item. destruct (dtype_of_code code) as [[class size] cbf].
+  intros H da. unfold alloc_dataset, new_dset_item. destruct (dtype_of_code code) as [[class size] cbf].
   rewrite blen_image by auto. fold da. f_equal.
   unfold image. rewrite layout_app. cbn [layout item_bytes]. rewrite app_nil_r, <- !app_assoc. reflexivity.
 Qed.
@@ -159,4 +166,65 @@ Proof.
   intros (p & q & E & L). unfold image in *. rewrite layout_app. cbn [layout]. rewrite app_nil_r.
   exists p, (q ++ item_bytes (48 + lsize lay) it). split; [|exact L].
   rewrite app_assoc, E, <- !app_assoc. reflexivity.
+Qed.
+
+(* ------------------------------------------------------------------ the in-place half on the image *)
+Lemma add_entry_room es e n1 : NS.add_entry (NS.parse_snod 32 (map abs_sym es)) e = Some n1 -> (length es < 32)%nat.
+Proof.
+  unfold NS.add_entry, NS.parse_snod. cbn [NS.sn_cap NS.sn_entries]. unfold NS.blen. rewrite map_length.
+  destruct (N.max 32 (N.of_nat (length es)) <=? N.of_nat (length es)) eqn:E; [discriminate|]. intros _.
+  apply N.leb_gt in E. lia.
+Qed.
+
+Lemma link_image l1 seg s hb l2 nm child f2 :
+  Forall item_ok (l1 ++ IGroup seg s hb :: l2) -> 48 + lsize (l1 ++ IGroup seg s hb :: l2) < LIM -> child < 18446744073709551616 ->
+  link_both (image (l1 ++ IGroup seg s hb :: l2)) (48 + lsize l1) (48 + lsize l1 + 288) nm child = Ok f2 ->
+  exists seg' s1, item_ok (IGroup seg' s1 hb) /\ f2 = image (l1 ++ IGroup seg' s1 hb :: l2).
+Proof.
+  intros HF Hb Hc HL. apply Forall_app in HF as [HF1 HF2]. apply Forall_cons_iff in HF2 as [(Hs & Hok & Hm) HF2].
+  rewrite lsize_app in Hb. cbn [lsize item_size] in Hb. unfold LIM in Hb.
+  set (ha := 48 + lsize l1) in *.
+  set (pre := sb0 ++ layout 48 l1).
+  set (suf := bt_block (ha + 288) ++ hb ++ layout (ha + (2120 + blen hb)) l2).
+  assert (Lpre : blen pre = ha) by (subst pre ha; rewrite blen_app, blen_sb0, blen_layout; auto).
+  assert (EI : forall sg sn, blen sg = 256 -> image (l1 ++ IGroup sg sn hb :: l2) = group_file pre [] suf sg sn).
+  { intros sg sn Hsg. unfold image, group_file, heap_file. rewrite layout_app. cbn [layout item_bytes item_size app]. fold ha.
+    rewrite Hsg, Lpre. subst pre suf. rewrite <- !app_assoc. reflexivity. }
+  rewrite (EI seg s Hs) in HL.
+  pose proof (link_both_commutes pre [] suf seg s nm child Hok Hm Hc) as C.
+  rewrite Lpre, Hs in C. change (blen []) with 0 in C. replace (ha + 32 + 256 + 0) with (ha + 288) in C by blia.
+  specialize (C ltac:(rewrite MaxInt64_val; blia)). cbv zeta in C.
+  destruct (NS.add_string (NS.prepare_for_modification seg) nm) as [[off h1]|]; [|rewrite C in HL; discriminate].
+  destruct C as [Hlen C].
+  destruct (NS.add_entry (NS.parse_snod 32 (map abs_sym (stn_entries s))) {| NS.e_off := off; NS.e_obj := child |}) as [n1|] eqn:EA;
+    [|destruct C as [C _]; rewrite C in HL; discriminate].
+  destruct C as (s1 & H1 & H2 & H3 & H4). rewrite H4 in HL. inversion HL; subst f2.
+  exists (snd (NS.write_to h1)), s1. split.
+  - cbn [item_ok]. split; [first [exact Hlen | now rewrite Hlen]|]. split; [exact H1|]. rewrite H2, app_length. cbn [length].
+    pose proof (add_entry_room _ _ _ EA). lia.
+  - symmetry. apply EI. first [exact Hlen | now rewrite Hlen].
+Qed.
+
+Lemma prepare_link_addrs st parent nm child ha sa :
+  prepare_link st parent nm child = Ok (ha, sa) -> parent_addrs st parent = Some (ha, sa).
+Proof.
+  unfold prepare_link. destruct (negb (NS.heap_name_ok nm)); [discriminate|].
+  destruct (parent_addrs st parent) as [[a b]|]; [|discriminate].
+  destruct (load_local_heap (t_file st) a 8 8) as [data| |]; cbn [obind]; try discriminate.
+  destruct (parse_snod (t_file st) b 8) as [s| |]; cbn [obind]; try discriminate.
+  destruct (existsb (sym_has_name data nm) (stn_entries s)); [discriminate|].
+  destruct (add_string (prepare_for_modification data) nm) as [[off h]| |]; cbn [obind]; try discriminate.
+  destruct (add_entry s (new_sym off child)) as [s'| |]; cbn [obind]; try discriminate.
+  intros H. now inversion H.
+Qed.
+
+Lemma plookup_pset {A} p q (v : A) l : NS.plookup q (NS.pset p v l) = if bytes_eqb p q then Some v else NS.plookup q l.
+Proof.
+  induction l as [|[p' v'] r IH]; cbn [NS.pset NS.plookup]; [reflexivity|].
+  destruct (bytes_eqb p' p) eqn:E; cbn [NS.plookup].
+  - apply HV.Proofs.GroupNSBase.bytes_eqb_eq in E. subst p'. destruct (bytes_eqb p q); reflexivity.
+  - rewrite IH. destruct (bytes_eqb p' q) eqn:E2; [|reflexivity].
+    apply HV.Proofs.GroupNSBase.bytes_eqb_eq in E2. subst p'.
+    destruct (bytes_eqb p q) eqn:E3; [|reflexivity].
+    apply HV.Proofs.GroupNSBase.bytes_eqb_eq in E3. subst q. rewrite HV.Proofs.GroupNSBase.bytes_eqb_refl in E. discriminate.
 Qed.
